@@ -289,6 +289,28 @@ def run(w: World, rep: Report):
                             if not (len(d) == 1 and d[0][0] is nxt):
                                 ok, why = False, 'the message variable is reassigned between the builder and verify/sign'
         rep.check('C02.R3', f'functions.{h.name}|message-from-builder', ok, line=h.node.lineno, file=REL, why=why)
+    # OP_SIGN signs whatever message the flags select (the empty one included): its only own failure condition is the
+    # key seed length - a guard on the message narrows the signing side below what OP_CHECK_SIG accepts
+    sgc = w.cfg(sg)
+    sgk = w.kinds(sg)
+    bad_g = []
+    for t in sgc.nodes:
+        if t.kind == 'test' and t.guard is not None:
+            for x in ast.walk(t.ast):
+                if isinstance(x, ast.Name):
+                    kx = sgk.of(x, t)
+                    lv = kx.leaves()
+                    # the message is the item popped right after the builder call: a stack_item that is not the first pop
+                    if lv and all(l.tag == 'stack_item' for l in lv):
+                        first_pop = min((n.id for n in sgc.nodes if n.ast is not None and any(
+                            isinstance(c, ast.Call) and isinstance(c.func, ast.Attribute) and c.func.attr == 'get'
+                            for c in ast.walk(n.ast))), default=None)
+                        defs = sgc.defs_reaching(x.id, t)
+                        if defs and all(d[0].id != first_pop for d in defs):
+                            bad_g.append(ast.unparse(t.ast)[:60])
+    rep.check('C02.R3', f'functions.{sg.name}|no-condition-on-the-message', not bad_g, line=sg.node.lineno, file=REL,
+              why='' if not bad_g else f'OP_SIGN refuses some messages (`{bad_g[0]}`) that OP_CHECK_SIG and OP_GET_MESSAGE accept: '
+              f'sign-then-check no longer succeeds for every flag value (e.g. flags that mask every sigfield present)')
     # OP_SIGN appends exactly the flag byte iff non-zero
     ok = False
     fv = _flag_vars_from_tape(w, sg)
